@@ -485,3 +485,94 @@ Proof.
   - specialize (IH (mgm_next d a dr)). pose proof (mgm_round_monotone_lemma d W a dr).
     destruct (d_max d); lia.
 Qed.
+
+(* ------------------------------------------------------------------ C07: node-local facts *)
+(* a variable without neighbour selects its value and reports finished at start, sends nothing *)
+Lemma mgm_isolated_finishes_l d stop orc n :
+  nbrs d n = [] ->
+  exists s, mgm_start d stop n (mgm_init orc n)
+            = (s, [], [EvValue n (fst (isolated_choice d n)) (Some (snd (isolated_choice d n))) 0; EvFinished n 0])
+            /\ m_fin s = 1 /\ m_value s = Some (fst (isolated_choice d n)).
+Proof.
+  intros H. unfold mgm_start. rewrite H. destruct (isolated_choice d n) as [v c]. simpl.
+  eexists. split; [reflexivity|]. split; reflexivity.
+Qed.
+
+(* finished() is only ever called by _send_value when the cycle counter has reached stop_cycle *)
+Lemma send_value_finished d stop n s s' o e k :
+  send_value d stop n s = (s', o, e) -> In (EvFinished n k) e -> stop <> 0 /\ stop <= k /\ k = m_cycle s + 1 /\ o = [].
+Proof.
+  unfold send_value. destruct (negb (stop =? 0) && (stop <=? m_cycle s + 1)) eqn:E; intros H Hin; inversion H; subst.
+  - destruct Hin as [Hin|[Hin|[]]]; inversion Hin; subst. apply andb_true_iff in E as [E1 E2].
+    repeat split; try lia.
+  - destruct Hin as [Hin|[]]. discriminate.
+Qed.
+
+(* the local invariant that rules out re-entrant processing of the postponed lists *)
+Definition linv (s : mst) : Prop :=
+  match m_state s with SValues => m_pv s = [] | SGain => m_pg s = [] | SStarting => True end.
+Definition no_err (e : list mev) : Prop := forall n k, ~ In (EvErr n k) e.
+
+Lemma no_err_app e1 e2 : no_err e1 -> no_err e2 -> no_err (e1 ++ e2).
+Proof. intros H1 H2 n k Hin. apply in_app_or in Hin as [Hin|Hin]; [eapply H1|eapply H2]; eauto. Qed.
+
+Lemma no_err_nil : no_err [].
+Proof. intros n k []. Qed.
+
+Section Local.
+  Variable d : dcop.
+  Variable stop : Z.
+  Variable n : node.
+
+  Lemma value_selection_props s v c s' o e : value_selection n s v c = (s', o, e) ->
+    no_err e /\ m_pv s' = m_pv s /\ m_pg s' = m_pg s /\ m_state s' = m_state s.
+  Proof.
+    unfold value_selection. intros H. inversion H; subst; simpl. repeat split; auto.
+    destruct (option_eqb Z.eqb (m_value s) (Some v)); intros a b Hin; [destruct Hin|destruct Hin as [Hin|[]]; discriminate].
+  Qed.
+
+  Lemma send_value_props s s' o e : send_value d stop n s = (s', o, e) ->
+    no_err e /\ m_pv s' = m_pv s /\ m_pg s' = m_pg s /\ m_state s' = m_state s.
+  Proof.
+    unfold send_value. destruct (negb (stop =? 0) && (stop <=? m_cycle s + 1)); intros H; inversion H; subst; simpl;
+      repeat split; auto; intros a b Hin; repeat (destruct Hin as [Hin|Hin]; try discriminate); auto.
+  Qed.
+
+  (* innermost level *)
+  Lemma wfv2_props s s' o e : m_pv s = [] -> wfv2 d stop n s = (s', o, e) ->
+    no_err e /\ m_pv s' = [] /\ m_pg s' = m_pg s /\ m_state s' = SValues.
+  Proof.
+    intros Hpv. unfold wfv2, andthen.
+    destruct (send_value d stop n (set_state s SValues)) as [[s1 o1] e1] eqn:E.
+    apply send_value_props in E as (H1 & H2 & H3 & H4). simpl in *.
+    rewrite Hpv in H2. rewrite H2. unfold ret. intros H. inversion H; subst.
+    repeat split; auto. rewrite app_nil_r. exact H1.
+  Qed.
+
+  Lemma wfg2_props s s' o e : m_pg s = [] -> wfg2 n s = (s', o, e) ->
+    no_err e /\ m_pg s' = [] /\ m_pv s' = m_pv s /\ m_state s' = SGain.
+  Proof.
+    intros Hpg. unfold wfg2. rewrite Hpg. unfold ret. intros H. inversion H; subst. simpl.
+    repeat split; auto. apply no_err_nil.
+  Qed.
+
+  (* a handler built on a continuation that keeps [m_pv = []] (resp. [m_pg = []]) *)
+  Lemma handle_gain_props (wfv : mst -> res) (Q : mst -> Prop) s src g s' o e :
+    (forall t t' o' e', m_pv t = m_pv s -> m_pg t = m_pg s -> wfv t = (t', o', e') -> no_err e' /\ Q t') ->
+    Q (set_ng s (dict_set Z.eqb src g (m_ng s))) ->
+    handle_gain d n wfv s src g = (s', o, e) -> no_err e /\ Q s'.
+  Proof.
+    intros Hw Hq. unfold handle_gain.
+    destruct (zlen (m_ng (set_ng s (dict_set Z.eqb src g (m_ng s)))) =? zlen (nbrs d n)).
+    2:{ unfold ret. intros H. inversion H; subst. split; [apply no_err_nil|exact Hq]. }
+    set (s1 := set_ng s (dict_set Z.eqb src g (m_ng s))) in *.
+    destruct (wins d n (m_gain s1) (m_ng s1)).
+    - unfold andthen. destruct (value_selection n s1 (m_newv s1) (Some (cur_cost s1 - m_gain s1))) as [[s2 o2] e2] eqn:E.
+      apply value_selection_props in E as (H1 & H2 & H3 & H4).
+      destruct (wfv (set_nv (set_ng s2 []) [])) as [[s3 o3] e3] eqn:E3. intros H. inversion H; subst.
+      apply Hw in E3 as [H5 H6]; [|simpl; rewrite H2; reflexivity|simpl; rewrite H3; reflexivity].
+      split; [apply no_err_app; auto|exact H6].
+    - unfold andthen, ret. destruct (wfv (set_nv (set_ng s1 []) [])) as [[s3 o3] e3] eqn:E3. intros H. inversion H; subst.
+      apply Hw in E3 as [H5 H6]; [|reflexivity|reflexivity]. split; [exact H5|exact H6].
+  Qed.
+End Local.
